@@ -9,7 +9,9 @@
    through its getter, writable through its setter or constructor parameter,
    and receives what C05 prescribes.
 
-   Theorems below hold for all jobs (any accessor/constructor tables). *)
+   Theorems below hold for all jobs (any accessor/constructor tables); guards:
+   acc_guard (accessor names distinct from each other and from the exported
+   fields: Go enforces it) and fn_names_ok (mapper methods have non-empty names). *)
 From Coq Require Import String List ZArith Bool.
 From Shoot Require Import Base.Str Model.Transfer Model.MapVal Model.Mapper Model.MapperEval Model.MapperSpec
      Model.MapperSpec15
@@ -33,7 +35,7 @@ Print Assumptions C15_set_at_most_once.
 (* ... (b) and none of them is a field the constructor call already received a
    mapped value for (nor one a manual method assigns) *)
 Theorem C15_not_covered_by_ctor : forall sigma jb a pr,
-  analyse sigma jb = Some a -> prepare jb = Some pr -> acc_guard jb ->
+  analyse sigma jb = Some a -> prepare jb = Some pr -> acc_guard jb -> fn_names_ok jb ->
   (forall st, In st (pl_stmts (a_to a)) -> s_has (s_wdst (pr_s0 pr)) (r_name (st_dst st)) = false)
   /\ (forall st, In st (pl_stmts (a_from a)) -> s_has (s_wsrc (pr_s0 pr)) (r_name (st_dst st)) = false)
   /\ (forall p, In p (pr_dctor pr) -> f_target p <> None -> s_has (s_wdst (pr_s0 pr)) (f_name p) = true)
@@ -47,7 +49,7 @@ Print Assumptions C15_not_covered_by_ctor.
    value of a name-matching readable field of the other side under an
    applicable strategy (assignment / conversion / mapper method) *)
 Theorem C15_ctor_args_to : forall sigma jb a args,
-  analyse sigma jb = Some a -> pl_ctor (a_to a) = Some args ->
+  analyse sigma jb = Some a -> acc_guard jb -> fn_names_ok jb -> pl_ctor (a_to a) = Some args ->
   map fst args = map cp_path (j_dst_ctor jb)
   /\ Forall2 (fun arg c =>
        snd arg = CZero (cp_ty c)
